@@ -10,14 +10,25 @@
 //	                     parameters declared with / assigned from those
 //	key bytes            R.Key, slices of it, locals assigned from it, and a []byte handed to btc.NewPrivateAddr
 //	                     (the record ALIASES it) from that call on
-//	a write              assignment / op-assignment / ++ through such bytes, or passing them in a written position of
-//	                     a known writer: sys.ClearBuffer, copy (dst), rand.Read, io.ReadFull, btc.ShaHash /
-//	                     btc.RimpHash (out), any callee whose name says clear/wipe/zero/fill/erase/scrub/reset, and
-//	                     package functions that (by the same rules, to a fixpoint) write one of their []byte parameters
-//	                     or the key of one of their record parameters
+//	a write              assignment / op-assignment / ++ through such bytes or through `*R`; `append` with key bytes as its
+//	                     FIRST argument; key bytes in a written position of a known writer (sys.ClearBuffer, copy dst,
+//	                     rand.Read, io.ReadFull, btc.ShaHash / btc.RimpHash out ...); and — CONSERVATIVELY — key bytes or a
+//	                     record handed to ANY callee that is neither on the allow-list of readers (`keyReaders`: EcdsaSign,
+//	                     SchnorrSign, tx.Sign / SignWitness, VerifyKeyPair, hex.EncodeToString, bytes.Equal, fmt printing,
+//	                     NewPrivateAddr ..., methods String / IsCompressed of a record) nor a function of this package whose
+//	                     matching parameter is tracked (then its body is analysed, to a fixpoint): function literals,
+//	                     closures, method values, unknown library functions, variadic / interface parameters all count as
+//	                     writers. Key bytes also flow through `&x`, composite literals holding them, package functions that
+//	                     return them (or return a []byte parameter), and a []byte handed to btc.NewPrivateAddr inside a loop
+//	                     aliases the record from the START of the loop when it is declared outside it.
+//	a process ender      last top-level statement is os.Exit(..) AND the body has no return statement
 //
-// Everything is syntactic (go/ast): no type checker is needed for a package this size, and the rules err on the side
-// of reporting (a record-typed name stays record-typed for the whole function).
+// Everything is syntactic (go/ast + the parser's own identifier resolution): no type checker is needed for a package this
+// size, and the rules err on the side of reporting (a record-typed name stays record-typed for the whole function).
+// NOT seen (the sessions of go/cmd/c14 are the only guard there): writes through reflection / unsafe / cgo, writes made
+// INSIDE an allow-listed reader or any function of another package after an edit THERE (lib/btc, lib/secp256k1 are not
+// read here), key bytes smuggled through a channel, a map, a struct field of a non-record type or a package variable
+// of type []byte, and goroutines writing after the operation returned.
 package main
 
 import (
@@ -43,17 +54,32 @@ var extWriters = map[string][]int{
 	"binary.BigEndian.PutUint32": {0}, "binary.BigEndian.PutUint64": {0},
 }
 
+// callees that may receive key bytes / a record and only READ them (everything not listed and not analysable is a writer)
+var keyReaders = map[string]bool{
+	"btc.EcdsaSign": true, "secp256k1.SchnorrSign": true, "btc.VerifyKeyPair": true, "btc.NewPrivateAddr": true,
+	"hex.EncodeToString": true, "bytes.Equal": true, "bytes.Compare": true, "len": true, "cap": true, "string": true,
+	"fmt.Println": true, "fmt.Print": true, "fmt.Printf": true, "fmt.Sprint": true, "fmt.Sprintf": true, "fmt.Sprintln": true,
+	"fmt.Fprintln": true, "fmt.Fprint": true, "fmt.Fprintf": true, "println": true, "print": true,
+	"tx.Sign": true, "tx.SignWitness": true, "btc.PublicFromPrivate": true, "new": true,
+}
+
+// methods of a record (*btc.PrivateAddr, embedded *btc.BtcAddr) that only read it
+var recReaderMethods = map[string]bool{"String": true, "IsCompressed": true, "OutScript": true}
+
 type storeFn struct {
-	name  string
-	decl  *ast.FuncDecl
-	recP  map[int]string // parameter index -> name, for parameters of type *btc.PrivateAddr
-	bytP  map[int]string // parameter index -> name, for parameters of type []byte
-	wrRec map[int]bool   // record parameters whose key this function writes
-	wrByt map[int]bool   // []byte parameters this function writes
-	wrKey bool           // holds a write to the key bytes of a stored record (direct, or through a package helper's parameter)
-	how   []string
-	calls map[string]bool
-	ender bool
+	retKey   bool         // returns (an alias of) the key bytes of a stored record / of a record parameter
+	retByt   map[int]bool // returns (an alias of) its []byte parameter i
+	variadic bool
+	name     string
+	decl     *ast.FuncDecl
+	recP     map[int]string // parameter index -> name, for parameters of type *btc.PrivateAddr
+	bytP     map[int]string // parameter index -> name, for parameters of type []byte
+	wrRec    map[int]bool   // record parameters whose key this function writes
+	wrByt    map[int]bool   // []byte parameters this function writes
+	wrKey    bool           // holds a write to the key bytes of a stored record (direct, or through a package helper's parameter)
+	how      []string
+	calls    map[string]bool
+	ender    bool
 }
 
 func typeStr(e ast.Expr) string {
@@ -153,7 +179,12 @@ func genStoreFacts() {
 				if x.Recv != nil && len(x.Recv.List) == 1 {
 					name = strings.TrimPrefix(typeStr(x.Recv.List[0].Type), "*") + "." + name
 				}
-				sf := &storeFn{name: name, decl: x, recP: map[int]string{}, bytP: map[int]string{}, wrRec: map[int]bool{}, wrByt: map[int]bool{}, calls: map[string]bool{}}
+				sf := &storeFn{name: name, decl: x, recP: map[int]string{}, bytP: map[int]string{}, wrRec: map[int]bool{}, wrByt: map[int]bool{}, retByt: map[int]bool{}, calls: map[string]bool{}}
+				if n := len(x.Type.Params.List); n > 0 {
+					if _, ok := x.Type.Params.List[n-1].Type.(*ast.Ellipsis); ok {
+						sf.variadic = true
+					}
+				}
 				i := 0
 				for _, p := range x.Type.Params.List {
 					ns := p.Names
@@ -174,12 +205,19 @@ func genStoreFacts() {
 				if x.Type.Results != nil && len(x.Type.Results.List) >= 1 && typeStr(x.Type.Results.List[0].Type) == recT {
 					recFuncs[name] = true
 				}
-				// a process ender: the last top-level statement is os.Exit(...)
+				// a process ender: the last top-level statement is os.Exit(...) and there is no return statement
 				if n := len(x.Body.List); n > 0 {
 					if es, ok := x.Body.List[n-1].(*ast.ExprStmt); ok {
 						if c, ok := es.X.(*ast.CallExpr); ok {
 							if k, _ := vtrans.Key(c.Fun); k == "os.Exit" {
 								sf.ender = true
+								// ... on EVERY path: a body with a return statement can come back to its caller
+								ast.Inspect(x.Body, func(n ast.Node) bool {
+									if _, ok := n.(*ast.ReturnStmt); ok {
+										sf.ender = false
+									}
+									return true
+								})
 							}
 						}
 					}
@@ -249,6 +287,37 @@ func genStoreFacts() {
 					}
 					return true, exprStr(fset, t), pi, -1
 				}
+			case *ast.StarExpr:
+				return isKey(t.X, at)
+			case *ast.UnaryExpr:
+				if t.Op == token.AND {
+					return isKey(t.X, at)
+				}
+			case *ast.CompositeLit:
+				for _, el := range t.Elts {
+					if kv, ok := el.(*ast.KeyValueExpr); ok {
+						el = kv.Value
+					}
+					if ok, rs, _, _ := isKey(el, at); ok {
+						return true, "{.. " + rs + " ..}", -1, -1
+					}
+				}
+			case *ast.CallExpr:
+				// a package function that returns key bytes, or returns the []byte parameter that is given key bytes here
+				if k, err := vtrans.Key(t.Fun); err == nil {
+					if callee, ok := fns[k]; ok {
+						if callee.retKey {
+							return true, k + "(..)", -1, -1
+						}
+						for i := range callee.retByt {
+							if i < len(t.Args) {
+								if ok, rs, _, _ := isKey(t.Args[i], at); ok {
+									return true, k + "(" + rs + ")", -1, -1
+								}
+							}
+						}
+					}
+				}
 			case *ast.Ident:
 				if from, ok := keyIds[t.Name]; ok && at >= from {
 					return true, t.Name, -1, -1
@@ -259,6 +328,26 @@ func genStoreFacts() {
 			}
 			return false, "", -1, -1
 		}
+		// the loops of the body (for / range; a label that a later goto jumps back to counts as a loop up to that goto)
+		var loops [][2]token.Pos
+		labels := map[string]token.Pos{}
+		ast.Inspect(sf.decl.Body, func(n ast.Node) bool {
+			switch s := n.(type) {
+			case *ast.ForStmt:
+				loops = append(loops, [2]token.Pos{s.Pos(), s.End()})
+			case *ast.RangeStmt:
+				loops = append(loops, [2]token.Pos{s.Pos(), s.End()})
+			case *ast.LabeledStmt:
+				labels[s.Label.Name] = s.Pos()
+			case *ast.BranchStmt:
+				if s.Tok == token.GOTO && s.Label != nil {
+					if lp, ok := labels[s.Label.Name]; ok && lp < s.Pos() {
+						loops = append(loops, [2]token.Pos{lp, s.End()})
+					}
+				}
+			}
+			return true
+		})
 		// pass 1 (to a fixpoint): names
 		for again := true; again; {
 			again = false
@@ -305,6 +394,15 @@ func genStoreFacts() {
 						}
 					}
 				case *ast.RangeStmt:
+					// ranging over something that holds key bytes (a [][]byte built from them): the value aliases them
+					if v, ok := s.Value.(*ast.Ident); ok && s.Value != nil {
+						if ok, _, _, _ := isKey(s.X, s.Pos()); ok {
+							if _, have := keyIds[v.Name]; !have {
+								keyIds[v.Name] = s.Pos()
+								again = true
+							}
+						}
+					}
 					if id, ok := s.X.(*ast.Ident); ok && storeVars[id.Name] && s.Value != nil {
 						if v, ok := s.Value.(*ast.Ident); ok && !recIds[v.Name] {
 							recIds[v.Name] = true
@@ -315,8 +413,21 @@ func genStoreFacts() {
 					// btc.NewPrivateAddr(x, ..): the new record's Key IS x
 					if k, err := vtrans.Key(s.Fun); err == nil && k == "btc.NewPrivateAddr" && len(s.Args) > 0 {
 						if id, ok := s.Args[0].(*ast.Ident); ok {
-							if _, have := keyIds[id.Name]; !have {
-								keyIds[id.Name] = s.End()
+							// ... from the call on; from the START of the outermost enclosing loop that does not
+							// contain the buffer's declaration (a buffer shared by the iterations is written while
+							// the previous iteration's record still aliases it)
+							from := s.End()
+							var decl token.Pos
+							if id.Obj != nil {
+								decl = id.Obj.Pos()
+							}
+							for _, lp := range loops {
+								if lp[0] <= s.Pos() && s.End() <= lp[1] && !(lp[0] <= decl && decl <= lp[1]) && lp[0] < from {
+									from = lp[0]
+								}
+							}
+							if old, have := keyIds[id.Name]; !have || from < old {
+								keyIds[id.Name] = from
 								again = true
 							}
 						}
@@ -359,9 +470,24 @@ func genStoreFacts() {
 			switch s := n.(type) {
 			case *ast.AssignStmt:
 				for _, l := range s.Lhs {
-					switch l.(type) {
+					switch lt := l.(type) {
 					case *ast.IndexExpr, *ast.SelectorExpr, *ast.SliceExpr:
 						hit(l, s.Pos(), "assignment to")
+					case *ast.StarExpr:
+						hit(l, s.Pos(), "assignment through")
+						if isRec(lt.X) { // *R = btc.PrivateAddr{..}: the whole stored record replaced in place
+							if !sf.wrKey {
+								changed = true
+							}
+							sf.wrKey = true
+							note("assignment to *" + exprStr(fset, lt.X))
+							if id, ok := lt.X.(*ast.Ident); ok {
+								if pi, ok := parIdx[id.Name]; ok && !sf.wrRec[pi] {
+									sf.wrRec[pi] = true
+									changed = true
+								}
+							}
+						}
 					}
 					// the store variable itself
 					if id, ok := l.(*ast.Ident); ok && storeVars[id.Name] {
@@ -389,6 +515,18 @@ func genStoreFacts() {
 							keysAssigners[sf.name] = true
 							appendsOnly = false // keys[i] = ...: a record replaced in place
 						}
+					}
+				}
+			case *ast.ReturnStmt:
+				for _, r := range s.Results {
+					ok, _, _, bi := isKey(r, s.Pos())
+					if ok && !sf.retKey {
+						sf.retKey = true
+						changed = true
+					}
+					if !ok && bi >= 0 && !sf.retByt[bi] {
+						sf.retByt[bi] = true
+						changed = true
 					}
 				}
 			case *ast.IncDecStmt:
@@ -432,6 +570,64 @@ func genStoreFacts() {
 				for _, i := range pos {
 					if i < len(s.Args) {
 						hit(s.Args[i], s.Pos(), k+" on")
+					}
+				}
+				// append(<key bytes>, ...) may write in place
+				if k == "append" && len(s.Args) > 0 {
+					hit(s.Args[0], s.Pos(), "append to")
+				}
+				// CONSERVATIVE: key bytes / a record handed to a callee that is neither a known reader nor analysable
+				_, isExt := extWriters[k]
+				callee, isPkg := fns[k]
+				if _, lit := s.Fun.(*ast.FuncLit); lit {
+					isPkg, isExt = false, false
+				}
+				flag := func(e ast.Expr, what string) {
+					ok, rs, pi, bi := isKey(e, s.Pos())
+					rec := isRec(e)
+					if !ok && !rec && bi < 0 {
+						return
+					}
+					if !ok && !rec { // a plain []byte parameter of this function handed on: written if the callee is unknown
+						if !sf.wrByt[bi] {
+							sf.wrByt[bi] = true
+							changed = true
+						}
+						return
+					}
+					if rec {
+						rs = exprStr(fset, e)
+						if id, ok := e.(*ast.Ident); ok {
+							if i, ok := parIdx[id.Name]; ok {
+								pi = i
+							}
+						}
+					}
+					if pi >= 0 && !sf.wrRec[pi] {
+						sf.wrRec[pi] = true
+						changed = true
+					}
+					if !sf.wrKey {
+						changed = true
+					}
+					sf.wrKey = true
+					note(what + " " + rs)
+				}
+				if !isExt && !keyReaders[k] && k != "append" && k != "copy" {
+					for i, a := range s.Args {
+						if isPkg && !callee.variadic {
+							if _, t1 := callee.recP[i]; t1 {
+								continue
+							}
+							if _, t2 := callee.bytP[i]; t2 {
+								continue
+							}
+						}
+						flag(a, "call of "+k+" (not a known reader) with")
+					}
+					// a method called ON a record
+					if sel, ok := s.Fun.(*ast.SelectorExpr); ok && isRec(sel.X) && !recReaderMethods[sel.Sel.Name] {
+						flag(sel.X, "method "+sel.Sel.Name+" (not a known reader) of")
 					}
 				}
 			}
@@ -491,7 +687,7 @@ func genStoreFacts() {
 	sort.Strings(assigners)
 	// the lookups the signer uses return the FIRST match: `for i := range keys { if ... { return i } }`
 	firstMatch := true
-	for _, fn := range []string{"hash_to_key_idx", "public_to_key_idx", "public_xo_to_key_idx"} {
+	for _, fn := range []string{"hash_to_key_idx", "pubhash_to_key_idx", "scripthash_to_key_idx", "public_to_key_idx", "public_xo_to_key_idx"} {
 		sf := fns[fn]
 		okShape := false
 		if sf != nil && len(sf.decl.Body.List) == 2 {
@@ -523,6 +719,98 @@ func genStoreFacts() {
 			firstMatch = false
 		}
 	}
+	// pkscr_to_key_idx: a chain of `if len(scr) == N && .. { return <lookup>(..) }` — which lookup serves which script
+	// length — and the lookups sign_tx calls (the model's scriptToKeyIdx mirrors exactly this dispatch)
+	var dispatch []string
+	if sf := fns["pkscr_to_key_idx"]; sf == nil {
+		die(fmt.Errorf("wallet: pkscr_to_key_idx not found (the script lookup the store model mirrors)"))
+	} else {
+		for _, st := range sf.decl.Body.List {
+			ifs, ok := st.(*ast.IfStmt)
+			if !ok {
+				continue
+			}
+			if ifs.Else != nil || ifs.Init != nil || len(ifs.Body.List) != 1 {
+				die(fmt.Errorf("pkscr_to_key_idx: unexpected shape of an if statement"))
+			}
+			ret, ok := ifs.Body.List[0].(*ast.ReturnStmt)
+			if !ok || len(ret.Results) != 1 {
+				die(fmt.Errorf("pkscr_to_key_idx: an if body that is not a single return"))
+			}
+			call, ok := ret.Results[0].(*ast.CallExpr)
+			if !ok {
+				die(fmt.Errorf("pkscr_to_key_idx: a template that does not return a lookup call"))
+			}
+			callee, _ := vtrans.Key(call.Fun)
+			// the conjuncts of the condition, printed: len(scr) == N and scr[i] == B
+			var conj []string
+			var walk func(e ast.Expr)
+			walk = func(e ast.Expr) {
+				if b, ok := e.(*ast.BinaryExpr); ok && b.Op == token.LAND {
+					walk(b.X)
+					walk(b.Y)
+					return
+				}
+				b, ok := e.(*ast.BinaryExpr)
+				if !ok || b.Op != token.EQL {
+					die(fmt.Errorf("pkscr_to_key_idx: a template condition that is not a conjunction of equalities"))
+				}
+				l := exprStr(fset, b.X)
+				if c, ok := b.X.(*ast.CallExpr); ok && len(c.Args) == 1 {
+					l = exprStr(fset, c.Fun) + "(" + exprStr(fset, c.Args[0]) + ")"
+				}
+				r := exprStr(fset, b.Y)
+				if v, err := vtrans.IntLit(b.Y); err == nil {
+					r = fmt.Sprint(v)
+				} else if r == "btc.OP_1" {
+					r = "81"
+				} else {
+					die(fmt.Errorf("pkscr_to_key_idx: template byte %s is not a literal", r))
+				}
+				conj = append(conj, l+"="+r)
+			}
+			walk(ifs.Cond)
+			arg := ""
+			if len(call.Args) == 1 {
+				if sl, ok := call.Args[0].(*ast.SliceExpr); ok {
+					lo, hi := "", ""
+					if sl.Low != nil {
+						if v, err := vtrans.IntLit(sl.Low); err == nil {
+							lo = fmt.Sprint(v)
+						}
+					}
+					if sl.High != nil {
+						if v, err := vtrans.IntLit(sl.High); err == nil {
+							hi = fmt.Sprint(v)
+						}
+					}
+					arg = exprStr(fset, sl.X) + "[" + lo + ":" + hi + "]"
+				}
+			}
+			if arg == "" {
+				die(fmt.Errorf("pkscr_to_key_idx: lookup argument is not a constant slice of the script"))
+			}
+			dispatch = append(dispatch, strings.Join(conj, " ")+" -> "+callee+" "+arg)
+		}
+	}
+	signLookups := map[string]bool{}
+	if sf := fns["sign_tx"]; sf == nil {
+		die(fmt.Errorf("wallet: sign_tx not found"))
+	} else {
+		ast.Inspect(sf.decl.Body, func(n ast.Node) bool {
+			if c, ok := n.(*ast.CallExpr); ok {
+				if k, err := vtrans.Key(c.Fun); err == nil && strings.Contains(k, "_to_key") {
+					signLookups[k] = true
+				}
+			}
+			return true
+		})
+	}
+	var signL []string
+	for k := range signLookups {
+		signL = append(signL, k)
+	}
+	sort.Strings(signL)
 	lst := func(xs []string) string {
 		q := make([]string, len(xs))
 		for i, x := range xs {
@@ -542,10 +830,12 @@ func genStoreFacts() {
 	fmt.Fprintf(&sb, "/-- functions from which such a write is reachable (calls inside the package) and the process goes on afterwards -/\ndef keyWritersLive : List String := %s\n", lst(live))
 	fmt.Fprintf(&sb, "/-- functions assigning the list `keys` itself -/\ndef keysAssigners : List String := %s\n", lst(assigners))
 	fmt.Fprintf(&sb, "/-- every such assignment is `keys = append(keys, <one record>)`: records are only ever added at the end -/\ndef keysAssignsAreAppends : Bool := %v\n", appendsOnly)
-	fmt.Fprintf(&sb, "/-- hash_to_key_idx / public_to_key_idx / public_xo_to_key_idx are `for i := range keys { if .. { return i } .. }; return -1` -/\ndef lookupsReturnFirstMatch : Bool := %v\n", firstMatch)
+	fmt.Fprintf(&sb, "/-- hash_to_key_idx / pubhash_to_key_idx / scripthash_to_key_idx / public_to_key_idx / public_xo_to_key_idx are `for i := range keys { if .. { return i } .. }; return -1` -/\ndef lookupsReturnFirstMatch : Bool := %v\n", firstMatch)
+	fmt.Fprintf(&sb, "/-- pkscr_to_key_idx, template by template: the equalities of the condition -> the lookup called and the slice of the script it gets -/\ndef pkscrDispatch : List String := %s\n", lst(dispatch))
+	fmt.Fprintf(&sb, "/-- the *_to_key* lookups sign_tx calls -/\ndef signTxLookups : List String := %s\n", lst(signL))
 	sb.WriteString("\nend GocoinV.Gen.WalletKeyStoreFacts\n")
 	write("WalletKeyStoreFacts.lean", sb.String())
-	facts += 6
+	facts += 8
 	if os.Getenv("VERIF_GEN_VERBOSE") != "" {
 		fmt.Fprint(os.Stderr, sb.String())
 	}
